@@ -1,0 +1,94 @@
+//go:build verif
+
+package stats
+
+// Contracts for govc (see /verif/DESIGN.md §8 C17). Comment-only file: it adds no code.
+//
+// adds(loc) / stores(loc) / atomicops(loc) are ghost counters of the atomic actions this
+// execution performed on loc (see /verif/govc/atomics.go); before every atomic action the
+// location is havocked (interference by other goroutines). An "atomic effect summary" is a
+// postcondition over these ghosts: it pins down that the operation is exactly one atomic
+// add of its operand, which is what makes totals equal event counts under any interleaving.
+
+//@ func (*counter).incr
+//@   property C17
+//@   mode bv
+//@   modifies c.count
+//@   ensures [effect] adds(c.count) == old(adds(c.count)) + step && stores(c.count) == old(stores(c.count)) && atomicops(c.count) == old(atomicops(c.count)) + 1 // C17: the reported totals equal the number of events that happened
+
+//@ func (*counter).decr
+//@   property C17
+//@   mode bv
+//@   modifies c.count
+//@   ensures [effect] adds(c.count) == old(adds(c.count)) - step && stores(c.count) == old(stores(c.count)) && atomicops(c.count) == old(atomicops(c.count)) + 1 // C17: worker gauges equal the number of live workers
+
+//@ func (*counter).get
+//@   property C17
+//@   mode bv
+//@   modifies c.count
+//@   ensures [effect] adds(c.count) == old(adds(c.count)) && stores(c.count) == old(stores(c.count)) && nloads() == 1 && result == loaded(1)
+
+//@ func (*counter).reset
+//@   property C17
+//@   mode bv
+//@   modifies c.count
+//@   ensures [effect] adds(c.count) == old(adds(c.count)) && stores(c.count) == old(stores(c.count)) + 1 && c.count == 0
+
+//@ func (*rate).incr
+//@   property C17
+//@   mode bv
+//@   modifies atomic(rps.total), atomic(rps.count)
+//@   ensures [effect] adds(rps.total) == old(adds(rps.total)) + step && adds(rps.count) == old(adds(rps.count)) + step && stores(rps.total) == old(stores(rps.total)) // C17: URLs crawled, seeds finished, per-status-code counts equal the number of events
+
+//@ func (*rate).getTotal
+//@   property C17
+//@   mode bv
+//@   modifies atomic(rps.total)
+//@   ensures [effect] adds(rps.total) == old(adds(rps.total)) && stores(rps.total) == old(stores(rps.total)) && nloads() == 1 && result == loaded(1)
+
+//@ func (*rate).reset
+//@   property C17
+//@   mode bv
+//@   ensures [total-kept] adds(rps.total) == old(adds(rps.total)) && stores(rps.total) == old(stores(rps.total)) // reset clears the per-second window, never the total
+
+//@ func (*rate).get
+//@   property C17
+//@   mode bv
+//@   ensures [total-kept] adds(rps.total) == old(adds(rps.total)) && stores(rps.total) == old(stores(rps.total)) && atomicops(rps.total) == old(atomicops(rps.total))
+
+//@ func (*mean).add
+//@   property C17
+//@   mode bv
+//@   modifies m.count, m.sum
+//@   ensures [effect] adds(m.count) == old(adds(m.count)) + 1 && adds(m.sum) == old(adds(m.sum)) + value && stores(m.count) == old(stores(m.count)) && stores(m.sum) == old(stores(m.sum)) // C17: means equal sum over count
+
+//@ func (*mean).get
+//@   property C17
+//@   mode bv fp
+//@   modifies m.count, m.sum
+//@   ensures [mean] nloads() == 2 && (loaded(1) == 0 ==> result == 0.0) && (loaded(1) != 0 ==> result == float64(loaded(2)) / float64(loaded(1))) // C17: means equal sum over count
+//@   ensures [no-effect] adds(m.count) == old(adds(m.count)) && adds(m.sum) == old(adds(m.sum)) && stores(m.count) == old(stores(m.count)) && stores(m.sum) == old(stores(m.sum))
+
+//@ func (*mean).reset
+//@   property C17
+//@   mode bv
+//@   modifies m.count, m.sum
+//@   ensures [effect] stores(m.count) == old(stores(m.count)) + 1 && stores(m.sum) == old(stores(m.sum)) + 1 && adds(m.count) == old(adds(m.count)) && adds(m.sum) == old(adds(m.sum))
+
+// Per-status-code table: a map of *rate guarded by the embedded mutex.
+//@ func (*rateBucket).incr
+//@   property C17
+//@   mode bv
+//@   attr guarded rb rb.Mutex
+//@   ensures [present] has(rb.data, key)
+//@   ensures [effect] forall(p, *rate, p == rb.data[key] ==> adds(p.total) == old(adds(p.total)) + step && stores(p.total) == old(stores(p.total))) // C17: per-status-code counts equal the number of events that happened
+//@   ensures [kept] old(has(rb.data, key)) ==> rb.data[key] == old(rb.data[key])
+//@   ensures [new] !old(has(rb.data, key)) ==> fresh(rb.data[key])
+//@   ensures [others] forall(k, string, k != key ==> has(rb.data, k) == old(has(rb.data, k)) && rb.data[k] == old(rb.data[k]))
+
+//@ func (*rateBucket).getTotal
+//@   property C17
+//@   mode bv
+//@   attr guarded rb rb.Mutex
+//@   ensures [unchanged] forall(k, string, has(rb.data, k) == old(has(rb.data, k)) && rb.data[k] == old(rb.data[k]))
+//@   ensures [value] (!has(rb.data, key) ==> result == 0) && (has(rb.data, key) ==> nloads() == 1 && result == loaded(1))
